@@ -93,8 +93,8 @@ class C14(Config):
               "Local Open Scope Z_scope.")
     bin = "c14"
     release_too = False
-    n_tags = 70
-    classes = {}
+    n_tags = 110
+    classes = {1: "C14-pushdata1-length"}
     shard_size = 200
     harness_timeout = 3000
     rule = ("requests = sequences of Builder add_*/propose_version/with_expiry_height calls over transparent P2PKH inputs, "
@@ -105,6 +105,7 @@ class C14(Config):
             "requests from one ChaCha8 stream, each re-run after model-free balancing with the amount the builder itself "
             "reported (exact, +1, -1); exhaustive DeferredPcztBuilder lattice (Ironwood-only and Orchard-only shapes, k spends x l outputs, "
             "k,l in 0..3, five padding configs, balanced / over-funded / under-funded) and P2SH lattice; "
+            "coinbase lattice (BuildConfig::Coinbase at heights in every branch x outputs only / forbidden spend or input / overridden expiry / proposed version); "
             "routes mock_build / build with mock Sapling provers / build_for_pczt + PCZT Creator / DeferredPcztBuilder::build_for_pczt; "
             "fee rules ZIP 317 standard and a recording linear rule; distinct = distinct (request, outcome) lines")
     trusted_base = [
@@ -118,13 +119,14 @@ class C14(Config):
     ]
     assumptions = [
         "spend witnesses supplied to the builder are consistent with the configured anchors and keys (the harness builds real note commitment trees)",
-        "transparent inputs are P2PKH coins whose key is in the signing set, or m-of-n multisig P2SH coins (1 <= m <= n <= 3) whose redeem script lists the multisig keys in index order",
+        "transparent inputs are P2PKH coins whose key is in the signing set, m-of-n multisig P2SH coins (1 <= m <= n <= 15) whose redeem script lists the multisig keys in index order, or P2SH coins with a non-standard redeem script (OP_1)",
+        "the coinbase configuration is exercised on the transaction routes with miner_data = None; Orchard-family coinbase outputs only in requests that are refused before proving",
         "Orchard/Ironwood proof creation and Sapling proving are outside the model (mock Sapling provers; real Orchard proofs only in a handful of thorough cases)",
         "usize is 64 bits",
     ]
     partial_clauses = [
         "recipient decryptability (value, memo, recipient at the index reported by the builder metadata) is an observed boolean checked per case, not a theorem",
-        "transparent signature validity under signature_hash(index, spent coin script / redeem script, value, SIGHASH_ALL) - P2PKH by OP_CHECKSIG against the pushed key, P2SH multisig by OP_CHECKMULTISIG's ordered matching - is an observed boolean checked per case; the theorems sig_index / multisig ordering are about the symbolic signing model (SignModel.v), tied to the code by that observed check only",
+        "transparent signatures: the harness reports, per input and signature, the key under which it verifies and the selector (index, value, script code, scriptPubKey from v5 on, hash type) of the signature_hash it verifies for (expected selector first, else a search over all index/coin/script combinations); run_case compares these with the symbolic signing model (SignModel.apply_signatures) and prop_case evaluates the signature clause on them, so C14_sig_index / C14_signed_selectors are bridged; what stays observed-only is ECDSA verification itself and that the scriptSig is push-only (b_sig)",
         "zero value of padding is observed only on the PCZT route (note values are visible there); on transaction routes padding is constrained through counts and value balances",
     ]
 
